@@ -173,8 +173,7 @@ class ModbusBinaryFramer(ModbusFramer):
                 else:
                     _logger.debug("Not a valid unit id - {}, "
                                   "ignoring!!".format(self._header['uid']))
-                    self.resetFrame()
-                    break
+                    self.advanceFrame()
 
             else:
                 if self._buffer.find(self._end) == -1:
